@@ -50,7 +50,7 @@ def api_cases(rng, n):
         if ka != "mpf" and kb != "mpf":
             a, ta, ka = mk(mp, gen.finite(rng, prec, bits=rng.randint(1, 120))), None, "mpf"
             ta = a._mpf_
-        if fn == "mpf_mod" and fin(ta) and fin(tb) and ta[1] and tb[1] and abs(ta[2] - tb[2]) > 3000:
+        if fn == "mpf_mod" and fin(ta) and fin(tb) and abs(ta[2] - tb[2]) > 3000:   # the model shifts bit by bit
             fn, pyop = ops[0]
         def thunk(a=a, b=b, prec=prec, rnd=rnd, pyop=pyop):
             p0, r0 = mp.prec, mp._prec_rounding[1]
